@@ -609,7 +609,15 @@ func init() {
 }
 
 func init() {
-	rt := func(v value) types.Type { return v.(iface).v.(rtype).t }
+	rt := func(v value) types.Type {
+		itf := v.(iface)
+		r, ok := itf.v.(rtype)
+		if !ok {
+			// reflect.PtrTo(nil) etc.: the runtime panics on the type assertion
+			panic(targetPanic{iface{gRuntimeErrorString, "interface conversion: reflect.Type is nil, not *reflect.rtype"}})
+		}
+		return r.t
+	}
 	externals["reflect.MakeSlice"] = func(fr *frame, args []value) value {
 		t := rt(args[0])
 		st, ok := t.Underlying().(*types.Slice)
